@@ -50,6 +50,12 @@ func c06Scenarios(cfg runCfg) []Scenario {
 		if r.chance(1, 6) {
 			x["two"] = "1" // the test function calls Check twice (a passing property first)
 		}
+		switch r.intn(10) {
+		case 0:
+			x["stale"] = "12" // a dozen old fail files (written by another rapid version) are lying around already
+		case 1:
+			x["tmpdir"] = "/dev/shm" // the system's temporary directory is on another file system than the package
+		}
 		out = append(out, Scenario{Family: "history", Seed: mix(cfg.seed, 6, uint64(i)), S: name, X: x})
 	}
 	for i := 0; i < cfg.n(64, 10); i++ {
@@ -205,6 +211,26 @@ func c06Run(t *testing.T, sc Scenario, res *Result) {
 		runBody(okBody, runOpts{name: name, flags: fl1})
 		res.inc("two_check_histories")
 	}
+	if sc.X["stale"] != "" {
+		for i := 0; i < 12; i++ {
+			writeFailFile(name, fmt.Sprintf("202001010000%02d-%d", i, 1000+i), "v0.0.1", 7, []uint64{1, 2, 3}, "written long ago by another version")
+		}
+		res.inc("histories_with_a_dozen_stale_files")
+	}
+	if td := sc.X["tmpdir"]; td != "" {
+		if st, err := os.Stat(td); err == nil && st.IsDir() {
+			old, had := os.LookupEnv("TMPDIR")
+			os.Setenv("TMPDIR", td)
+			defer func() {
+				if had {
+					os.Setenv("TMPDIR", old)
+				} else {
+					os.Unsetenv("TMPDIR")
+				}
+			}()
+			res.inc("histories_with_TMPDIR_elsewhere")
+		}
+	}
 	run1 := runBody(body, runOpts{name: name, flags: fl1})
 	res.inc("histories")
 	detail := map[string]any{"name": name, "sanitized": sanitize(name), "output": outKind, "threshold": thr, "run1": run1.tb.brief()}
@@ -217,6 +243,15 @@ func c06Run(t *testing.T, sc Scenario, res *Result) {
 		res.violate(sc, "c06/run1/"+firstWords(pr, 5), "run 1: "+pr, detail)
 	}
 	final, temps, others := listFailDir(name)
+	if sc.X["stale"] != "" {
+		var fresh []string
+		for _, f := range final {
+			if !strings.Contains(filepath.Base(f), "-2020010100") {
+				fresh = append(fresh, f)
+			}
+		}
+		final = fresh
+	}
 	detail["dir"] = map[string]any{"final": final, "temps": temps, "others": others}
 	if len(final) != 1 {
 		res.violate(sc, "c06/file-count", fmt.Sprintf("%d files match testdata/rapid/<name>/<name>-*.fail after a failing run (expected exactly 1)", len(final)), detail)
@@ -284,8 +319,12 @@ func c06Run(t *testing.T, sc Scenario, res *Result) {
 	}
 	run2 := runBody(body, runOpts{name: name, flags: map[string]string{"rapid.shrinktime": shrink}})
 	judge2("auto", run2)
-	if f2, _, _ := listFailDir(name); len(f2) != 1 {
-		res.violate(sc, "c06/second-file", fmt.Sprintf("%d fail files after replaying a persisted failure (expected still 1)", len(f2)), detail)
+	planted := 0
+	if sc.X["stale"] != "" {
+		planted = 12
+	}
+	if f2, _, _ := listFailDir(name); len(f2) != 1+planted {
+		res.violate(sc, "c06/second-file", fmt.Sprintf("%d fail files after replaying a persisted failure (expected still %d)", len(f2), 1+planted), detail)
 	}
 	// run 3: from another working directory with -rapid.failfile=<path>
 	abs, _ := filepath.Abs(final[0])
